@@ -259,7 +259,7 @@ func (c *Ctx) trackerRules(rm map[string]string) {
 	}
 	// ---- R6 Wipe
 	if id := rm["R6"]; id != "" {
-		wipe := c.Func(c.State, "(*stateTracker).Wipe")
+		wipe := c.lockedBody(c.Func(c.State, "(*stateTracker).Wipe"))
 		ok, why := false, "Wipe not found"
 		if wipe != nil {
 			r.Funcs[c.FuncKey(wipe)] = true
@@ -439,7 +439,7 @@ func renBefore(a, b renStep) bool {
 
 func (c *Ctx) renameRule(id string, m *trackerModel) {
 	r := c.R
-	fn := c.Func(c.State, "(*stateTracker).ReNick")
+	fn := c.lockedBody(c.Func(c.State, "(*stateTracker).ReNick"))
 	r.Anchor(id, "(*stateTracker).ReNick", fn != nil)
 	if fn == nil {
 		return
@@ -645,7 +645,7 @@ func (c *Ctx) renameRule(id string, m *trackerModel) {
 // or other such helpers (the rename's own re-keying code).
 func (c *Ctx) renameHelpers() map[*ssa.Function]bool {
 	out := map[*ssa.Function]bool{}
-	renick := c.Func(c.State, "(*stateTracker).ReNick")
+	renick := c.lockedBody(c.Func(c.State, "(*stateTracker).ReNick"))
 	if renick == nil {
 		return out
 	}
@@ -715,7 +715,7 @@ func (c *Ctx) gcRule(id string, m *trackerModel, nickDel *ssa.Function) {
 	}
 	r.Floor(id, "nick-side delete call sites outside nick deletion", n, 1)
 	// Dissociate of the client itself deletes the channel
-	dis := c.Func(c.State, "(*stateTracker).Dissociate")
+	dis := c.lockedBody(c.Func(c.State, "(*stateTracker).Dissociate"))
 	okSelf := false
 	if dis != nil {
 		for _, cs := range CallSites(dis) {
@@ -1060,18 +1060,29 @@ func (c *Ctx) modeArgRule(id string) {
 				if ph, ok := args.(*ssa.Phi); ok && c.feedsPhi(s, ph, 0) {
 					return true
 				}
-				// handed back to the caller
-				for _, ref := range *s.Referrers() {
-					switch t := ref.(type) {
-					case *ssa.Return:
-						return true
-					case *ssa.Store:
-						if _, isAl := t.Addr.(*ssa.Alloc); isAl {
-							return true // result spill
+				// handed back to the caller (directly, or as one arm of the value that is returned)
+				var back func(v ssa.Value, d int) bool
+				back = func(v ssa.Value, d int) bool {
+					if d > 4 {
+						return false
+					}
+					for _, ref := range *v.Referrers() {
+						switch t := ref.(type) {
+						case *ssa.Return:
+							return true
+						case *ssa.Store:
+							if _, isAl := t.Addr.(*ssa.Alloc); isAl {
+								return true // result spill
+							}
+						case *ssa.Phi:
+							if back(t, d+1) {
+								return true
+							}
 						}
 					}
+					return false
 				}
-				return false
+				return back(s, 0)
 			}
 			isStateWrite := func(in ssa.Instruction) bool {
 				if isModeStore(in) {
@@ -1306,6 +1317,37 @@ func (c *Ctx) matchArg(v ssa.Value, spec argSpec, line ssa.Value) (bool, string)
 	return false, "unknown spec"
 }
 
+// ownNickTest: v is the client's own-nick test: Me().Equals(x), or the call of
+// an unexported client function that returns just that.
+func (c *Ctx) ownNickTest(v ssa.Value, depth int) bool {
+	call, ok := v.(*ssa.Call)
+	if !ok || depth > 2 {
+		return false
+	}
+	if calleeName(&call.Call) == "(*"+modPath+"/state.Nick).Equals" {
+		return true
+	}
+	cal := call.Call.StaticCallee()
+	if cal == nil || call.Call.IsInvoke() || cal.Package() != c.Client || !c.InModuleFn(cal) || cal.Object() == nil || cal.Object().Exported() || cal.Blocks == nil {
+		return false
+	}
+	if res := cal.Signature.Results(); res.Len() != 1 {
+		return false
+	}
+	n, okAll := 0, true
+	funcInstrs(cal, func(in ssa.Instruction) {
+		rt, isR := in.(*ssa.Return)
+		if !isR {
+			return
+		}
+		n++
+		if !c.ownNickTest(retVal(rt, 0), depth+1) {
+			okAll = false
+		}
+	})
+	return okAll && n > 0
+}
+
 // lookupHelper: call is a call of an unexported client function every return
 // of which hands back what one read-only tracker query on one of its
 // parameters answered (GetChannel(name), GetNick(name)). Result: the query's
@@ -1415,6 +1457,9 @@ func (c *Ctx) allowedGuard(cd Cond, line ssa.Value) bool {
 				return true
 			}
 		}
+		if c.ownNickTest(v, 0) && n != "(*"+modPath+"/state.Nick).Equals" {
+			return true
+		}
 		// an unexported helper of the client whose boolean answer is decided by guards of these kinds alone
 		// (e.g. "the tracker knows this channel")
 		if cal := v.Call.StaticCallee(); cal != nil && !v.Call.IsInvoke() && c.guardHelper(cal) {
@@ -1515,7 +1560,7 @@ func runC13(c *Ctx) {
 			okMe := false
 			for _, cd := range append(append([]Cond{}, CondsAt(dc.Anchor.Block())...), dc.Inner...) {
 				cd2 := unwrapNot(cd)
-				if call, ok := cd2.V.(*ssa.Call); ok && calleeName(&call.Call) == "(*"+modPath+"/state.Nick).Equals" && cd2.True {
+				if cd2.True && c.ownNickTest(cd2.V, 0) {
 					okMe = true
 				}
 			}
@@ -1610,8 +1655,38 @@ func runC13(c *Ctx) {
 
 // sameLineExpr: a and b are the same SSA value or both denote the same part
 // of the handler's line (go/ssa does not merge repeated loads).
-func (c *Ctx) sameLineExpr(a, b, line ssa.Value) bool {
+// sameExpr: a and b are the same value, or the same pure read expression
+// (field of / load through / element of equal sub-expressions) - go/ssa makes
+// a new instruction for each textual occurrence of e.nick or line.Args[0].
+func sameExpr(a, b ssa.Value, depth int) bool {
 	if a == b {
+		return true
+	}
+	if a == nil || b == nil || depth > 5 {
+		return false
+	}
+	switch x := a.(type) {
+	case *ssa.Field:
+		y, ok := b.(*ssa.Field)
+		return ok && x.Field == y.Field && sameExpr(x.X, y.X, depth+1)
+	case *ssa.FieldAddr:
+		y, ok := b.(*ssa.FieldAddr)
+		return ok && x.Field == y.Field && sameExpr(x.X, y.X, depth+1)
+	case *ssa.UnOp:
+		y, ok := b.(*ssa.UnOp)
+		return ok && x.Op == y.Op && x.Op == token.MUL && sameExpr(x.X, y.X, depth+1)
+	case *ssa.IndexAddr:
+		y, ok := b.(*ssa.IndexAddr)
+		return ok && sameExpr(x.X, y.X, depth+1) && sameExpr(x.Index, y.Index, depth+1)
+	case *ssa.Const:
+		y, ok := b.(*ssa.Const)
+		return ok && x.Value != nil && y.Value != nil && x.Value.String() == y.Value.String() && types.Identical(x.Type(), y.Type())
+	}
+	return false
+}
+
+func (c *Ctx) sameLineExpr(a, b, line ssa.Value) bool {
+	if a == b || sameExpr(a, b, 0) {
 		return true
 	}
 	if i, ok := c.lineArgIndex(a, line); ok {
@@ -1641,14 +1716,14 @@ func (c *Ctx) onlySkippedByIsOn(cs ssa.Instruction, nk ssa.Value) bool {
 			}
 			cd = unwrapNot(cd)
 			if ex, ok := cd.V.(*ssa.Extract); ok && ex.Index == 1 && cd.True {
-				if call, ok := ex.Tuple.(*ssa.Call); ok && c.isTrackerCall(call) && call.Call.Method.Name() == "IsOn" && call.Call.Args[1] == nk {
+				if call, ok := ex.Tuple.(*ssa.Call); ok && c.isTrackerCall(call) && call.Call.Method.Name() == "IsOn" && sameExpr(call.Call.Args[1], nk, 0) {
 					skip[edge{b, s}] = true
 				}
 			}
 		}
 	}
 	reach := ReachFromFiltered(cs, false, func(in ssa.Instruction) bool {
-		return c.isTrackerCall(in) && callOf(in).Method.Name() == "Associate" && callOf(in).Args[1] == nk
+		return c.isTrackerCall(in) && callOf(in).Method.Name() == "Associate" && sameExpr(callOf(in).Args[1], nk, 0)
 	}, func(from, to *ssa.BasicBlock) bool { return skip[edge{from, to}] })
 	// the loop head (next name) also ends the obligation for this nick: accept reaching the range's Next
 	for in := range reach {
@@ -1764,6 +1839,48 @@ func (c *Ctx) namesRuleAs(rule string, h *ssa.Function) {
 				}
 			}
 			modeArg := cs.Common().Args[1]
+			// the mode may come out of a parsed entry (a struct field filled in by a parsing helper): read the table
+			// from the constant stores to that field
+			var modeField *types.Var
+			switch t := modeArg.(type) {
+			case *ssa.Field:
+				if st, okS := t.X.Type().Underlying().(*types.Struct); okS {
+					modeField = st.Field(t.Field)
+				}
+			case *ssa.UnOp:
+				if t.Op == token.MUL {
+					modeField, _ = fieldOf(t.X)
+				}
+			}
+			if modeField != nil && modeField.Pkg() == c.Client.Pkg {
+				for _, sf := range c.clientFuncs() {
+					funcInstrs(sf, func(in ssa.Instruction) {
+						st, okS := in.(*ssa.Store)
+						if !okS {
+							return
+						}
+						if fv, _ := fieldOf(st.Addr); fv != modeField {
+							return
+						}
+						m, isC := constString(st.Val)
+						if !isC || m == "" {
+							return
+						}
+						for _, cd := range CondsAt(st.Block()) {
+							cd = unwrapNot(cd)
+							if bo, okB := cd.V.(*ssa.BinOp); okB && bo.Op == token.EQL && cd.True {
+								if k, okK := constInt(bo.Y); okK && k < 256 {
+									if want[byte(k)] == m {
+										got[m] = true
+									} else if _, isPfx := want[byte(k)]; isPfx {
+										r.Add(rule, "353:prefix:"+string(rune(k)), c.InstrPos(st), c.FuncKey(sf), "prefix maps to the right privilege", false, fmt.Sprintf("prefix %q sets %s", rune(k), m))
+									}
+								}
+							}
+						}
+					})
+				}
+			}
 			resIdx := 0
 			if ex, isE := modeArg.(*ssa.Extract); isE {
 				modeArg, resIdx = ex.Tuple, ex.Index
@@ -1875,6 +1992,40 @@ func (c *Ctx) setterRule(rule string) {
 				}
 				if _, ok := tracked[derefStruct(base.Type())]; ok {
 					byField[fv] = append(byField[fv], in)
+				}
+			})
+			// ... or handed to a setter of the tracked object that stores it on every one of its paths: the call then
+			// stands for the store
+			funcInstrs(fn, func(in ssa.Instruction) {
+				call, ok := in.(*ssa.Call)
+				if !ok || call.Call.IsInvoke() {
+					return
+				}
+				h := call.Call.StaticCallee()
+				if h == nil || !c.InModuleFn(h) || h.Package() != c.State || h.Blocks == nil || (h.Object() != nil && h.Object().Exported()) {
+					return
+				}
+				for j, arg := range call.Call.Args {
+					if arg != ssa.Value(pr) || j >= len(h.Params) {
+						continue
+					}
+					hp := h.Params[j]
+					funcInstrs(h, func(x ssa.Instruction) {
+						s2, isS := x.(*ssa.Store)
+						if !isS || s2.Val != ssa.Value(hp) {
+							return
+						}
+						fv, base := fieldOf(s2.Addr)
+						if fv == nil {
+							return
+						}
+						if _, isT := tracked[derefStruct(base.Type())]; !isT {
+							return
+						}
+						if all, _ := AllPathsFromEntryPass(h, func(y ssa.Instruction) bool { return y == x }); all {
+							byField[fv] = append(byField[fv], in)
+						}
+					})
 				}
 			})
 			for fv, stores := range byField {
@@ -2590,4 +2741,41 @@ func (c *Ctx) modeFlagStoresRule(rule string) {
 		}
 	}
 	r.Add(rule, "flag-stores-examined", "-", "", "stores to mode flags and sign variables examined", nSt+nPhi > 0, fmt.Sprintf("%d flag stores, %d sign variables", nSt, nPhi))
+}
+
+// lockedBody: when fn only takes its receiver's lock and delegates to one
+// unexported method of the same receiver (the "lock wrapper + body" split),
+// the body; otherwise fn itself.
+func (c *Ctx) lockedBody(fn *ssa.Function) *ssa.Function {
+	if fn == nil || fn.Blocks == nil || fn.Signature.Recv() == nil {
+		return fn
+	}
+	var inner *ssa.Function
+	n := 0
+	okShape := true
+	funcInstrs(fn, func(in ssa.Instruction) {
+		switch t := in.(type) {
+		case *ssa.Call:
+			if op, isL := c.lockOpOf(in); isL && (op.Method == "Lock" || op.Method == "RLock" || op.Method == "Unlock" || op.Method == "RUnlock") {
+				return
+			}
+			cal := t.Call.StaticCallee()
+			if cal == nil || t.Call.IsInvoke() || !c.InModuleFn(cal) || cal.Signature.Recv() == nil || (cal.Object() != nil && cal.Object().Exported()) || len(t.Call.Args) == 0 || t.Call.Args[0] != ssa.Value(fn.Params[0]) {
+				okShape = false
+				return
+			}
+			inner = cal
+			n++
+		case *ssa.Defer:
+			if op, isL := c.lockOpOf(in); !isL || (op.Method != "Unlock" && op.Method != "RUnlock") {
+				okShape = false
+			}
+		case *ssa.Store, *ssa.MapUpdate, *ssa.Go, *ssa.Send, *ssa.If, *ssa.Lookup:
+			okShape = false
+		}
+	})
+	if okShape && n == 1 && inner != nil {
+		return inner
+	}
+	return fn
 }
